@@ -179,6 +179,10 @@ int Symbols::set(const char *name, uint32_t address)
     }
 
     entry = find(name);
+
+    // append() adds nothing once the table is locked (pass 2).
+    if (entry == nullptr) { return -1; }
+
     entry->scope = 0;
     entry->flag_rw = true;
   }
